@@ -32,9 +32,9 @@ impl Check for DefCheck {
 	}
 	fn runs(&self, tier: Tier) -> u64 {
 		let per = match (self.id, tier) {
-			(_, Tier::Quick) => 2_000,
-			("C14", Tier::Thorough) => 60_000,
-			(_, Tier::Thorough) => 40_000,
+			(_, Tier::Quick) => 8_000,
+			("C14", Tier::Thorough) => 150_000,
+			(_, Tier::Thorough) => 100_000,
 		};
 		per * self.suts.len() as u64
 	}
